@@ -186,7 +186,7 @@ func runC22(c *CaseCtx) {
 
 func init() {
 	register(&Check{
-		ID: "C22", Level: "exploration",
+		ID: "C22", Level: "exploration", NoLeakMonitor: true,
 		NCases: func(t string) int { return tier(t, 90, 3600) },
 		Run:    runC22,
 		Rule: "case = (creator index mode, directory state in {never opened, opened and closed, written, written over many segments, merged, crashed (process-crash images of the creator's run)}); each resulting directory is copied and opened in each of the three index modes; " +
